@@ -161,7 +161,9 @@ class BuiltinMixin:
             if not args:
                 hint = getattr(node, "_hint", None)
                 if hint is None:
-                    raise Unsupported("untyped empty set(): declare the local's type in the sidecar")
+                    # element type fixed by the first use (dict.get default, assignment to a declared local/field)
+                    v = V(TSet(TOpaque("empty")), self.new_ref(st, "set"))
+                    return v
                 return self.new_set(st, hint)
             v = self.need_value(args[0], st, node)
             th, seq, elt, post = self.iter_sequence(v, st, node)
@@ -574,6 +576,9 @@ class BuiltinMixin:
             has = self.dict_has(st, recv, k)
             val = self.dict_get(st, recv, k)
             default = args[1] if len(args) > 1 else V(NONE, None)
+            if isinstance(default.t, TSet) and isinstance(default.t.elt, TOpaque) and default.t.elt.name == "empty" \
+                    and isinstance(t.val, TSet):
+                default = self.retype_empty_set(st, default, t.val)
             return ite(has, val, default)
         if attr == "pop":
             k = coerce(args[0], t.key)
@@ -638,6 +643,10 @@ class BuiltinMixin:
         st.pc.append(z3.ForAll([k], z3.Implies(z3.And(0 <= k, k < th.Len(keys)),
                                                pth.Idx(items, k) == dt.mk(th.Idx(keys, k), z3.Select(vm, th.Idx(keys, k)))),
                                patterns=[pth.Idx(items, k)]))
+        # coverage stated on the pairs themselves (creates the term items[pos(x)] for every key in the domain)
+        st.pc.append(z3.ForAll([x], z3.Implies(z3.Select(dom, x),
+                                               pth.Idx(items, pos(x)) == dt.mk(x, z3.Select(vm, x))),
+                               patterns=[z3.Select(dom, x)]))
         v = V(TSeq(pt), items)
         v._keys = keys
         return v
